@@ -401,8 +401,11 @@ Section WithConfig.
         match name with
         | Some n =>
           if nonempty n then
+            (* since fix 635317b: names declared in components.schemas are exempt from the "pure reference" shortcut,
+               so a top-level alias is registered under its own name as the resolved target object *)
+            let declared_name := match alookup n S with Some _ => true | None => false end in
             let pure_ref := match i_name r with
-                            | Some rn => nonempty rn && negb (str_eqb rn n) && registered rn s1
+                            | Some rn => nonempty rn && negb (str_eqb rn n) && registered rn s1 && negb declared_name
                             | None => false
                             end in
             if pure_ref then (r, s1)
